@@ -172,6 +172,28 @@ pub(crate) mod verif_q {
         (s.frame, s.input)
     }
     pub(crate) const RING: usize = N;
+    pub(crate) fn lu<T: Config<Input = u8>>(q: &InputQueue<T>) -> Frame {
+        q.last_user_frame
+    }
+    pub(crate) fn fi<T: Config<Input = u8>>(q: &InputQueue<T>) -> Frame {
+        q.first_incorrect_frame
+    }
+    pub(crate) fn delay<T: Config<Input = u8>>(q: &InputQueue<T>) -> usize {
+        q.frame_delay
+    }
+    pub(crate) fn pred_input<T: Config<Input = u8>>(q: &InputQueue<T>) -> u8 {
+        q.prediction.input
+    }
+    /// any queue state satisfying the representation invariant, with its ghost prediction base
+    pub(crate) fn any_valid<T: Config<Input = u8>>() -> (InputQueue<T>, Frame) {
+        let (q, g) = any_queue::<T>();
+        kani::assume(inv(&q, &g));
+        (q, g.pbase)
+    }
+    /// the representation invariant, for post-state checks of other harnesses
+    pub(crate) fn holds<T: Config<Input = u8>>(q: &InputQueue<T>, pbase: Frame) -> bool {
+        inv(q, &Ghost { pbase })
+    }
 
     fn value_of<T: Config<Input = u8>>(q: &InputQueue<T>, f: Frame) -> u8 {
         q.inputs[f as usize % N].input
